@@ -167,26 +167,32 @@ Example C12_tmap_example_hypotheses :
 Proof. exact ex_map_ok. Qed.
 Print Assumptions C12_tmap_example_hypotheses.
 
-(* concrete values of the current code: the example map; a single entry; the map holding exactly
-   ENTRIES_ALLOC_INIT entries queried beyond its last anchor (both directions: no fault);
-   two anchors with the same UTC time (the first anchor's id, no fault) *)
+(* concrete values of the current code: the example map; a single entry; two anchors with the
+   same UTC time (the first anchor's id, no fault) *)
 Example C12_tmap_example_values :
   let t := tmap_add_all (tmap_alloc (1000 # 1)) [(0, 2 ^ 58); (1000, 2 ^ 58 + 2 ^ 30); (2500, 2 ^ 58 + 5 * 2 ^ 29 + 7)] in
   let t1 := tmap_add_all (tmap_alloc (1000 # 1)) [(5000, 2 ^ 58)] in
-  let full := tmap_add_all (tmap_alloc (1000 # 1))
-          (map (fun i => (Z.of_nat i * 1000, 2 ^ 58 + Z.of_nat i * 2 ^ 30)) (seq 0 (N.to_nat TMAP_ENTRIES_ALLOC_INIT))) in
   let eqt := tmap_add_all (tmap_alloc (1000 # 1)) [(0, 2 ^ 40); (1000, 2 ^ 40)] in
   tmap_sample_id_to_timestamp t 500 = QVal (2 ^ 58 + 2 ^ 29) /\
   tmap_sample_id_to_timestamp t 1000 = QVal (2 ^ 58 + 2 ^ 30) /\
   tmap_sample_id_to_timestamp t 3000 = QVal (2 ^ 58 + 5 * 2 ^ 29 + 7 + 536870914) /\
   tmap_timestamp_to_sample_id t (2 ^ 58 + 2 ^ 29) = QVal 500 /\
   tmap_sample_id_to_timestamp t1 6000 = QVal (2 ^ 58 + 2 ^ 30) /\
-  tmap_sample_id_to_timestamp full 999001 = QVal (2 ^ 58 + 999 * 2 ^ 30 + 1073742) /\
-  tmap_timestamp_to_sample_id full (2 ^ 58 + 1000 * 2 ^ 30) = QVal 1000000 /\
   tmap_timestamp_to_sample_id eqt (2 ^ 40) = QVal 0 /\
   tmap_timestamp_to_sample_id eqt (2 ^ 40 + 5) = QVal 0.
 Proof. exact ex_map_values. Qed.
 Print Assumptions C12_tmap_example_values.
+
+(* the map holding exactly ENTRIES_ALLOC_INIT = 1000 entries, queried beyond its last anchor in
+   both directions: a value, no fault (the old code read outside the heap object here) *)
+Example C12_tmap_example_at_capacity :
+  exists t : tmap,
+    t = tmap_add_all (tmap_alloc (1000 # 1))
+          (map (fun i => (Z.of_nat i * 1000, 2 ^ 58 + Z.of_nat i * 2 ^ 30)) (seq 0 (N.to_nat TMAP_ENTRIES_ALLOC_INIT))) /\
+    tmap_sample_id_to_timestamp t 999001 = QVal (2 ^ 58 + 999 * 2 ^ 30 + 1073742) /\
+    tmap_timestamp_to_sample_id t (2 ^ 58 + 1000 * 2 ^ 30) = QVal 1000000.
+Proof. exact full_map_values. Qed.
+Print Assumptions C12_tmap_example_at_capacity.
 
 Example C12_tmap_binary64_hypothesis_satisfiable :
   forall x : Q, (Qabs ((fun y => y) x - x) <= Qabs x * (1 # 2 ^ 53))%Q.
